@@ -423,4 +423,434 @@ Proof.
     rewrite Hcb, Hca in Hn. exact Hn.
 Qed.
 
+(* ---------------------------------------------------------------- seek *)
+
+Definition all_le (l : list elt) (k : Z) : Prop := Forall (fun e => fst e <= k) l.
+Definition all_ge (l : list elt) (k : Z) : Prop := Forall (fun e => k <= fst e) l.
+
+(* seek(key, before): everything in front of the cursor is < key (<= key when before is False),
+   everything behind it is >= key (> key) *)
+Definition split_ok (before : bool) (key : Z) (bef aft : list elt) : Prop :=
+  if before then all_lt bef key /\ all_ge aft key else all_le bef key /\ all_gt aft key.
+
+Lemma lt_le l k : all_lt l k -> all_le l k.
+Proof. apply Forall_impl. intros; lia. Qed.
+Lemma gt_ge l k : all_gt l k -> all_ge l k.
+Proof. apply Forall_impl. intros; lia. Qed.
+
+Lemma split_ok_strict before key bef aft : all_lt bef key -> all_gt aft key -> split_ok before key bef aft.
+Proof. intros H1 H2. destruct before; split; auto using lt_le, gt_ge. Qed.
+
+Lemma left_of_app lf ea eb ka c kb :
+  length ka = length ea -> left_of (Node lf (ea ++ eb) (ka ++ c :: kb)) (length ea) = zipl ka ea.
+Proof.
+  intros H. unfold left_of. cbn [n_elts n_kids]. now rewrite (firstn_app_exact ka _ _ H), (firstn_app_exact ea _ _ eq_refl).
+Qed.
+
+Lemma right_of_app lf ea eb ka c kb :
+  length ka = length ea -> right_of (Node lf (ea ++ eb) (ka ++ c :: kb)) (length ea) = zipr eb kb.
+Proof.
+  intros H. unfold right_of. cbn [n_elts n_kids]. rewrite (skipn_app_exact ea _ _ eq_refl).
+  replace (ka ++ c :: kb) with ((ka ++ [c]) ++ kb) by (now rewrite <- app_assoc).
+  now rewrite skipn_app_exact by (rewrite app_length; cbn; lia).
+Qed.
+
+Lemma path_sorted root n h lo par : path root n h lo par -> ksorted (elements root) -> ksorted (elements n).
+Proof.
+  intros Hp Hs. rewrite (path_elements _ _ _ _ _ Hp) in Hs.
+  apply ksorted_app in Hs as (_ & Hs & _). apply ksorted_app in Hs. tauto.
+Qed.
+
+Lemma seek_loop_spec root key before : ksorted (elements root) -> forall fuel h lo n par,
+  path root n h lo par -> (h <= fuel)%nat ->
+  all_lt (ctx_before par) key -> all_gt (ctx_after par) key ->
+  exists n' idx par' bef aft,
+    seek_loop fuel key before n par = Ok (n', idx, par') /\
+    cstate root n' idx false before par' bef aft /\ split_ok before key bef aft.
+Proof.
+  intros Hsr. induction fuel as [|f IH]; intros h lo n par Hp Hf Hcb Hca.
+  { pose proof (wfn_pos t Ht _ _ _ (path_wf _ _ _ _ _ Hp)). lia. }
+  pose proof (path_wf _ _ _ _ _ Hp) as Hw. pose proof (path_sorted _ _ _ _ _ Hp Hsr) as Hs.
+  pose proof (node_es_sorted t Ht _ _ _ Hw Hs) as Hes.
+  cbn [seek_loop].
+  destruct n as [lf es ks]. cbn [n_elts n_leaf n_kids] in *.
+  destruct (search_cases key es Hes) as [(ea & v & eb & -> & Hsrch & Hlt & Hgt)|(ea & eb & -> & Hsrch & Hlt & Hgt)];
+    rewrite Hsrch; cbn [bind].
+  - (* the key is in this node *)
+    pose proof Hw as Hw0.
+    apply wfn_inv in Hw as (Hb & [(-> & -> & ->)|(-> & h' & -> & Hk & Hall)]).
+    + (* leaf *)
+      destruct before.
+      * eexists _, _, _, _, _. split; [reflexivity|]. split.
+        { eapply (cs_leaf root _ (length ea) true par); eauto; cbn [n_elts]; rewrite ?app_length; cbn [length]; lia. }
+        cbn [n_elts]. rewrite firstn_app_exact, skipn_app_exact by reflexivity. split.
+        -- apply all_lt_app. auto.
+        -- unfold all_ge. apply Forall_app. split; [constructor; [cbn; lia|now apply gt_ge]|now apply gt_ge].
+      * eexists _, _, _, _, _. split; [reflexivity|]. split.
+        { eapply (cs_leaf root _ (S (length ea)) false par); eauto; cbn [n_elts]; rewrite ?app_length; cbn [length]; lia. }
+        cbn [n_elts]. replace (ea ++ (key, v) :: eb) with ((ea ++ [(key, v)]) ++ eb) by (now rewrite <- app_assoc).
+        rewrite firstn_app_exact, skipn_app_exact by (rewrite app_length; cbn; lia). split.
+        -- unfold all_le. rewrite !Forall_app. repeat split; [now apply lt_le|now apply lt_le|constructor; [cbn; lia|constructor]].
+        -- apply all_gt_app. auto.
+    + (* internal *)
+      destruct (node_decomp2 (ea ++ (key, v) :: eb) ks (length ea) Hk) as (ea' & pe & eb' & ka & cl & cr & kb & He & -> & H1 & H2 & H3).
+      { rewrite app_length. cbn. lia. }
+      destruct (app_eq_len _ _ _ _ He H1) as (-> & Hq). inversion Hq; subst pe eb'. clear Hq He H1.
+      rewrite (elements_split2 ea (key, v) eb ka cl cr kb H2 H3) in Hs.
+      set (n := Node false (ea ++ (key, v) :: eb) (ka ++ cl :: cr :: kb)) in *.
+      assert (Hmid : all_lt (zipl ka ea ++ elements cl) key /\ all_gt (elements cr ++ zipr eb kb) key).
+      { rewrite <- app_assoc in Hs. rewrite app_assoc in Hs. rewrite <- app_assoc in Hs.
+        replace (zipl ka ea ++ elements cl ++ ((key, v) :: elements cr) ++ zipr eb kb)
+          with ((zipl ka ea ++ elements cl) ++ (key, v) :: elements cr ++ zipr eb kb) in Hs by (now rewrite <- !app_assoc).
+        apply ksorted_mid in Hs. tauto. }
+      destruct Hmid as (Hml & Hmr).
+      assert (Hlo : left_of n (length ea) = zipl ka ea) by (apply left_of_app; assumption).
+      assert (Hkl : nth_error (n_kids n) (length ea) = Some cl) by (cbn; now rewrite <- H2, nth_error_app_mid).
+      assert (Hro : right_of n (length ea) = (key, v) :: elements cr ++ zipr eb kb).
+      { unfold n. rewrite (right_of_app false ea ((key, v) :: eb) ka cl (cr :: kb) H2). reflexivity. }
+      assert (Hne : nth_error (n_elts n) (length ea) = Some (key, v)) by (cbn; apply nth_error_app_mid).
+      destruct (right_of_step _ _ n (length ea) (key, v) Hw0 eq_refl Hne) as (kid & kid' & Hk1 & Hk2 & Hr & Hlft).
+      assert (kid = cl) by congruence. subst kid.
+      assert (kid' = cr).
+      { unfold n in Hk2. cbn [n_kids] in Hk2. replace (ka ++ cl :: cr :: kb) with ((ka ++ [cl]) ++ cr :: kb) in Hk2 by (now rewrite <- app_assoc).
+        replace (S (length ea)) with (length (ka ++ [cl])) in Hk2 by (rewrite app_length; cbn; lia).
+        rewrite nth_error_app_mid in Hk2. congruence. }
+      subst kid'.
+      assert (Hro' : right_of n (S (length ea)) = zipr eb kb).
+      { rewrite Hro in Hr. inversion Hr as [Hr']. apply app_inv_head in Hr'. now symmetry. }
+      destruct before.
+      * destruct (seek_greatest_spec root (S (depth n)) (S h') lo n (length ea) par Hp) as (lfn & i' & par' & lo' & Hsg & Hpl & Hll & Hlen & _ & Hint).
+        { rewrite (wfn_depth t _ _ _ Hw0). lia. } { intros _. cbn. rewrite app_length. lia. }
+        destruct (Hint eq_refl) as (-> & Hlo' & Hca' & Hcb'). specialize (Hcb' cl Hkl).
+        rewrite Hsg. eexists _, _, _, _, _. split; [reflexivity|]. split.
+        { eapply (cs_leaf root lfn (length (n_elts lfn)) true par'); eauto. }
+        rewrite firstn_all, skipn_all. cbn [app]. rewrite Hcb', Hca', Hlo, Hro. split.
+        -- apply all_lt_app. split; [assumption|exact Hml].
+        -- unfold all_ge. apply Forall_app. split; [constructor; [cbn; lia|apply gt_ge; exact Hmr]|apply gt_ge; assumption].
+      * destruct (seek_least_spec root (S (depth n)) (S h') lo n (S (length ea)) par Hp) as (lfn & i' & par' & lo' & Hsg & Hpl & Hll & Hlen & _ & Hint).
+        { rewrite (wfn_depth t _ _ _ Hw0). lia. } { intros _. cbn. rewrite app_length. cbn. lia. }
+        destruct (Hint eq_refl) as (-> & Hlo' & Hcb' & Hca'). specialize (Hca' cr Hk2).
+        rewrite Hsg. eexists _, _, _, _, _. split; [reflexivity|]. split.
+        { eapply (cs_leaf root lfn 0 false par'); eauto. lia. }
+        cbn [firstn skipn]. rewrite app_nil_r. rewrite Hcb', Hca', Hlft, Hlo, Hro'. split.
+        -- unfold all_le. rewrite !Forall_app. repeat split; try (now apply lt_le).
+           ++ apply all_lt_app in Hml. apply lt_le. tauto.
+           ++ apply all_lt_app in Hml. apply lt_le. tauto.
+           ++ constructor; [cbn; lia|constructor].
+        -- rewrite app_assoc. apply all_gt_app. split; assumption.
+  - (* the key is not in this node *)
+    pose proof Hw as Hw0.
+    apply wfn_inv in Hw as (Hb & [(-> & -> & ->)|(-> & h' & -> & Hk & Hall)]).
+    + eexists _, _, _, _, _. split; [reflexivity|]. split.
+      { eapply (cs_leaf root _ (length ea) before par); eauto; cbn [n_elts]; rewrite ?app_length; cbn [length]; lia. }
+      cbn [n_elts]. rewrite firstn_app_exact, skipn_app_exact by reflexivity.
+      apply split_ok_strict; [apply all_lt_app|apply all_gt_app]; auto.
+    + destruct (node_decomp1 (ea ++ eb) ks (length ea) Hk) as (ea' & eb' & ka & c & kb & He & -> & H1 & H2 & H3).
+      { rewrite app_length. lia. }
+      destruct (app_eq_len _ _ _ _ He H1) as (-> & ->).
+      assert (Hkc : nth_error (ka ++ c :: kb) (length ea) = Some c) by (now rewrite <- H2, nth_error_app_mid).
+      rewrite Hkc.
+      pose (n := Node false (ea ++ eb) (ka ++ c :: kb)).
+      destruct (kid_sorted ea eb ka c kb H2 H3 Hs) as (Hcs & Hzl & Hzr & _ & _).
+      assert (Hp' : path root c h' (t_min t) ((n, length ea) :: par)) by (econstructor; [exact Hp|exact Hkc]).
+      destruct (IH h' (t_min t) c ((n, length ea) :: par) Hp' ltac:(lia)) as (n' & idx & par' & bef & aft & Hr & Hcst & Hsp).
+      * cbn [ctx_before]. apply all_lt_app. split; [assumption|]. unfold n. rewrite left_of_app by assumption.
+        apply zipl_lt; assumption.
+      * cbn [ctx_after]. apply all_gt_app. split; [|assumption]. unfold n. rewrite right_of_app by assumption.
+        apply zipr_gt; assumption.
+      * exists n', idx, par', bef, aft. auto.
+Qed.
+
+(* ---------------------------------------------------------------- anchors: the reference semantics *)
+
+(* the position of a cursor in a reference sorted dictionary: on a boundary, or just before /
+   just after a key (which need not be present) *)
+Inductive anchor := AL | AR | AB (k : Z) | AA (k : Z).
+
+Definition anchor_of (c : cursor) : anchor :=
+  match c_pkey c with
+  | Some k => if (if c_pkread c then negb (c_inc c) else c_inc c) then AB k else AA k
+  | None => if (c_idx c =? 0)%nat then AL else AR
+  end.
+
+(* (bef, aft) is the split of the sorted list l at the anchor *)
+Definition pos_ok (a : anchor) (l bef aft : list elt) : Prop :=
+  bef ++ aft = l /\
+  match a with
+  | AL => bef = []
+  | AR => aft = []
+  | AB k => all_lt bef k /\ all_ge aft k
+  | AA k => all_le bef k /\ all_gt aft k
+  end.
+
+Definition cinv (root : tree) (c : cursor) : Prop :=
+  (c_node c = None /\ c_pkey c = None /\ c_par c = [] /\ c_rec c = false /\ (c_idx c = 0%nat \/ c_idx c = 1%nat))
+  \/ (c_parked c = true /\ exists k, c_pkey c = Some k)
+  \/ (c_parked c = false /\ exists n k bef aft,
+        c_node c = Some n /\ c_pkey c = Some k /\
+        cstate root n (c_idx c) (c_rec c) (c_inc c) (c_par c) bef aft /\
+        pos_ok (anchor_of c) (elements root) bef aft).
+
+Lemma cstate_wf root n i rec inc par bef aft : cstate root n i rec inc par bef aft -> exists lo h, wfn lo h n.
+Proof. intros H; inversion H; subst; eauto using path_wf. Qed.
+
+Lemma cstate_leaf_inc root n i inc inc' par bef aft :
+  cstate root n i false inc par bef aft -> cstate root n i false inc' par bef aft.
+Proof. intros H; inversion H; subst. econstructor; eauto. Qed.
+
+Lemma sorted_after l bef x aft : ksorted l -> l = bef ++ x :: aft -> all_le (bef ++ [x]) (fst x) /\ all_gt aft (fst x).
+Proof.
+  intros Hs ->. apply ksorted_mid in Hs as (H1 & H2 & _). split; [|assumption].
+  unfold all_le. apply Forall_app. split; [now apply lt_le|constructor; [lia|constructor]].
+Qed.
+
+Lemma sorted_before l bef x aft : ksorted l -> l = bef ++ x :: aft -> all_lt bef (fst x) /\ all_ge (x :: aft) (fst x).
+Proof.
+  intros Hs ->. apply ksorted_mid in Hs as (H1 & H2 & _). split; [assumption|].
+  constructor; [lia|now apply gt_ge].
+Qed.
+
+Lemma finish_next root n i rec inc par bef aft pk :
+  cstate root n i rec inc par bef aft -> ksorted (elements root) ->
+  exists c',
+    (do (c', o) <- next_loop (loop_fuel n par) n i rec inc par;
+     Ok (mkC (c_node c') (c_idx c') (c_rec c') (c_inc c') (c_par c') false (c_pkey c')
+           (match o with Some _ => true | None => pk end), o)) = Ok (c', hd_error aft) /\
+    cinv root c' /\ c_parked c' = false /\
+    anchor_of c' = match aft with x :: _ => AA (fst x) | [] => AR end.
+Proof.
+  intros Hcs Hs. destruct (cstate_wf _ _ _ _ _ _ _ _ Hcs) as (lo & h & Hw).
+  pose proof (next_loop_spec root n i rec inc par bef aft (loop_fuel n par) h lo Hcs Hw) as Hn.
+  rewrite (loop_fuel_ok _ _ _ _ Hw) in *. specialize (Hn (le_n _)).
+  pose proof (cstate_elements _ _ _ _ _ _ _ _ Hcs) as He.
+  destruct aft as [|x aft'].
+  - rewrite Hn. cbn [bind boundary_r c_node c_idx c_rec c_inc c_par c_pkey hd_error].
+    eexists. split; [reflexivity|]. split; [left; cbn; auto 10|]. split; reflexivity.
+  - destruct Hn as (n' & i' & rec' & par' & -> & Hcs'). cbn [bind c_node c_idx c_rec c_inc c_par c_pkey hd_error].
+    eexists. split; [reflexivity|]. split; [|split; reflexivity].
+    right. right. split; [reflexivity|]. exists n', (fst x), (bef ++ [x]), aft'. cbn.
+    split; [reflexivity|]. split; [reflexivity|]. split; [assumption|]. split.
+    + rewrite He. now rewrite <- app_assoc.
+    + eapply sorted_after; eauto.
+Qed.
+
+Lemma finish_prev root n i rec inc par bef aft pk :
+  cstate root n i rec inc par bef aft -> ksorted (elements root) ->
+  exists c',
+    (do (c', o) <- prev_loop (loop_fuel n par) n i rec inc par;
+     Ok (mkC (c_node c') (c_idx c') (c_rec c') (c_inc c') (c_par c') false (c_pkey c')
+           (match o with Some _ => true | None => pk end), o)) = Ok (c', hd_error (rev bef)) /\
+    cinv root c' /\ c_parked c' = false /\
+    anchor_of c' = match rev bef with x :: _ => AB (fst x) | [] => AL end.
+Proof.
+  intros Hcs Hs. destruct (cstate_wf _ _ _ _ _ _ _ _ Hcs) as (lo & h & Hw).
+  pose proof (prev_loop_spec root n i rec inc par bef aft (loop_fuel n par) h lo Hcs Hw) as Hn.
+  rewrite (loop_fuel_ok _ _ _ _ Hw) in *. specialize (Hn (le_n _)).
+  pose proof (cstate_elements _ _ _ _ _ _ _ _ Hcs) as He.
+  destruct Hn as [(-> & Hr)|(bef' & x & n' & i' & rec' & par' & -> & Hr & Hcs')].
+  - rewrite Hr. cbn [bind boundary_l c_node c_idx c_rec c_inc c_par c_pkey hd_error rev].
+    eexists. split; [reflexivity|]. split; [left; cbn; auto 10|]. split; reflexivity.
+  - rewrite Hr. rewrite rev_app_distr. cbn [bind c_node c_idx c_rec c_inc c_par c_pkey hd_error rev app].
+    eexists. split; [reflexivity|]. split; [|split; reflexivity].
+    right. right. split; [reflexivity|]. exists n', (fst x), bef', (x :: aft). cbn.
+    split; [reflexivity|]. split; [reflexivity|]. split; [assumption|]. split.
+    + rewrite He. now rewrite <- app_assoc.
+    + eapply sorted_before; eauto. rewrite He. now rewrite <- app_assoc.
+Qed.
+
+(* seeking from the root *)
+Lemma seek_root_spec root h key before :
+  wfr t h root -> ksorted (elements root) ->
+  exists n idx par bef aft,
+    seek_loop (S (depth root)) key before root [] = Ok (n, idx, par) /\
+    cstate root n idx false before par bef aft /\
+    pos_ok (if before then AB key else AA key) (elements root) bef aft.
+Proof.
+  intros Hw Hs. unfold wfr in Hw.
+  destruct (seek_loop_spec root key before Hs (S (depth root)) h (root_lo root) root [] (path_nil root h Hw))
+    as (n & idx & par & bef & aft & Hr & Hcs & Hsp); try constructor.
+  { rewrite (wfn_depth t _ _ _ Hw). lia. }
+  exists n, idx, par, bef, aft. split; [assumption|]. split; [assumption|].
+  split; [symmetry; eapply cstate_elements; eauto|]. destruct before; exact Hsp.
+Qed.
+
+Theorem cursor_seek_spec root h key before :
+  wfr t h root -> ksorted (elements root) ->
+  exists c', cursor_seek root key before = Ok c' /\ cinv root c' /\ c_parked c' = false /\
+             anchor_of c' = if before then AB key else AA key.
+Proof.
+  intros Hw Hs. destruct (seek_root_spec root h key before Hw Hs) as (n & idx & par & bef & aft & Hr & Hcs & Hp).
+  unfold cursor_seek. rewrite Hr. cbn [bind]. eexists. split; [reflexivity|].
+  assert (Ha : anchor_of (mkC (Some n) idx false before par false (Some key) false) = if before then AB key else AA key).
+  { unfold anchor_of. cbn. reflexivity. }
+  split; [|split; [reflexivity|exact Ha]].
+  right. right. split; [reflexivity|]. exists n, key, bef, aft. cbn [c_node c_pkey c_idx c_rec c_inc c_par].
+  split; [reflexivity|]. split; [reflexivity|]. split; [assumption|]. rewrite Ha. exact Hp.
+Qed.
+
+(* the position denoted by an anchor exists and the cursor machine delivers from it *)
+Theorem cursor_next_spec root h c :
+  wfr t h root -> ksorted (elements root) -> cinv root c ->
+  exists bef aft c',
+    pos_ok (anchor_of c) (elements root) bef aft /\
+    cursor_next root c = Ok (c', hd_error aft) /\
+    cinv root c' /\ c_parked c' = false /\
+    anchor_of c' = match aft with x :: _ => AA (fst x) | [] => AR end.
+Proof.
+  intros Hw Hs [(Hn & Hk & Hpar & Hrec & Hidx)|[(Hpk & k & Hk)|(Hpk & n & k & bef & aft & Hn & Hk & Hcs & Hpos)]].
+  - (* on a boundary *)
+    unfold cursor_next, maybe_unpark. rewrite Hk.
+    assert (Hu : exists c1, (if c_parked c then Ok (mkC (c_node c) (c_idx c) (c_rec c) (c_inc c) (c_par c) false None (c_pkread c)) else Ok c) = Ok c1
+                 /\ c_node c1 = None /\ c_idx c1 = c_idx c /\ c_rec c1 = false /\ c_par c1 = [] /\ c_inc c1 = c_inc c /\ c_pkread c1 = c_pkread c).
+    { destruct (c_parked c); eexists; (split; [reflexivity|]); cbn; auto 10. }
+    destruct Hu as (c1 & -> & Hn1 & Hi1 & Hr1 & Hp1 & Hinc1 & Hpr1). cbn [bind]. rewrite Hn1, Hi1.
+    unfold anchor_of. rewrite Hk.
+    destruct Hidx as [Hi|Hi]; rewrite Hi; cbn [Nat.eqb negb].
+    + (* left boundary: walk to the least leaf *)
+      rewrite Hp1, Hr1.
+      unfold wfr in Hw.
+      destruct (seek_least_spec root (S (depth root)) h (root_lo root) root 0 [] (path_nil root h Hw)) as (lf & i' & par' & lo' & Hsl & Hpl & Hll & Hlen & Hleaf & Hint).
+      { rewrite (wfn_depth t _ _ _ Hw). lia. } { intros; lia. }
+      rewrite Hsl. cbn [bind].
+      assert (Hcs : cstate root lf i' false (c_inc c1) par' [] (elements root)).
+      { destruct (n_leaf root) eqn:Hrl.
+        - destruct (Hleaf eq_refl) as (-> & -> & ->).
+          pose proof (cs_leaf root root 0 (c_inc c1) [] _ Hpl Hrl ltac:(lia)) as Hc. cbn in Hc.
+          rewrite app_nil_r in Hc. destruct root as [lf0 es0 ks0]. cbn in Hrl. subst lf0. exact Hc.
+        - destruct (Hint eq_refl) as (-> & _ & Hcb & Hca).
+          destruct h as [|h0]; [pose proof (wfn_pos t Ht _ _ _ Hw); lia|].
+          destruct h0 as [|h0]; [apply (wfn_leaf_iff t Ht) in Hw; intuition congruence|].
+          destruct (node_split _ _ root 0 Hw Hrl ltac:(lia)) as (kid & Hkid & _ & He).
+          pose proof (cs_leaf root lf 0 (c_inc c1) par' _ Hpl Hll ltac:(lia)) as Hc. cbn [firstn skipn] in Hc.
+          rewrite app_nil_r, Hcb, (Hca kid Hkid) in Hc. cbn [ctx_before ctx_after] in Hc.
+          rewrite left_of_zero in *. cbn [app] in *. rewrite ?app_nil_r in Hc. rewrite <- He in Hc. exact Hc. }
+      destruct (finish_next root lf i' false (c_inc c1) par' [] (elements root) (c_pkread c1) Hcs Hs) as (c' & Hr & Hci & Hpk' & Han).
+      exists [], (elements root), c'. split; [split; reflexivity|]. auto.
+    + (* right boundary *)
+      exists (elements root), [], (mkC None 1 (c_rec c1) (c_inc c1) (c_par c1) false None (c_pkread c1)).
+      split; [split; [apply app_nil_r|reflexivity]|]. split; [reflexivity|]. split; [|split; reflexivity].
+      left. cbn. auto 10.
+  - (* parked on a key: seek again, then step *)
+    unfold cursor_next, maybe_unpark. rewrite Hpk, Hk.
+    set (before := if c_pkread c then negb (c_inc c) else c_inc c).
+    destruct (seek_root_spec root h k before Hw Hs) as (n & idx & par & bef & aft & Hr & Hcs & Hp).
+    unfold cursor_seek. rewrite Hr. cbn [bind c_node c_idx c_rec c_inc c_par c_pkread].
+    apply cstate_leaf_inc with (inc' := c_inc c) in Hcs.
+    destruct (finish_next root n idx false (c_inc c) par bef aft false Hcs Hs) as (c' & Hr' & Hci & Hpk' & Han).
+    exists bef, aft, c'. split; [|auto]. unfold anchor_of. rewrite Hk. fold before. exact Hp.
+  - (* unparked inside the tree *)
+    unfold cursor_next, maybe_unpark. rewrite Hpk. cbn [bind]. rewrite Hn.
+    destruct (finish_next root n (c_idx c) (c_rec c) (c_inc c) (c_par c) bef aft (c_pkread c) Hcs Hs) as (c' & Hr' & Hci & Hpk' & Han).
+    exists bef, aft, c'. auto.
+Qed.
+
+Theorem cursor_prev_spec root h c :
+  wfr t h root -> ksorted (elements root) -> cinv root c ->
+  exists bef aft c',
+    pos_ok (anchor_of c) (elements root) bef aft /\
+    cursor_prev root c = Ok (c', hd_error (rev bef)) /\
+    cinv root c' /\ c_parked c' = false /\
+    anchor_of c' = match rev bef with x :: _ => AB (fst x) | [] => AL end.
+Proof.
+  intros Hw Hs [(Hn & Hk & Hpar & Hrec & Hidx)|[(Hpk & k & Hk)|(Hpk & n & k & bef & aft & Hn & Hk & Hcs & Hpos)]].
+  - (* on a boundary *)
+    unfold cursor_prev, maybe_unpark. rewrite Hk.
+    assert (Hu : exists c1, (if c_parked c then Ok (mkC (c_node c) (c_idx c) (c_rec c) (c_inc c) (c_par c) false None (c_pkread c)) else Ok c) = Ok c1
+                 /\ c_node c1 = None /\ c_idx c1 = c_idx c /\ c_rec c1 = false /\ c_par c1 = [] /\ c_inc c1 = c_inc c /\ c_pkread c1 = c_pkread c).
+    { destruct (c_parked c); eexists; (split; [reflexivity|]); cbn; auto 10. }
+    destruct Hu as (c1 & -> & Hn1 & Hi1 & Hr1 & Hp1 & Hinc1 & Hpr1). cbn [bind]. rewrite Hn1, Hi1.
+    unfold anchor_of. rewrite Hk.
+    destruct Hidx as [Hi|Hi]; rewrite Hi; cbn [Nat.eqb negb].
+    + (* left boundary *)
+      exists [], (elements root), (mkC None 0 (c_rec c1) (c_inc c1) (c_par c1) false None (c_pkread c1)).
+      split; [split; reflexivity|]. split; [reflexivity|]. split; [|split; reflexivity].
+      left. cbn. auto 10.
+    + (* right boundary: walk to the greatest leaf *)
+      rewrite Hp1, Hr1.
+      unfold wfr in Hw.
+      destruct (seek_greatest_spec root (S (depth root)) h (root_lo root) root (length (n_elts root)) [] (path_nil root h Hw)) as (lf & i' & par' & lo' & Hsl & Hpl & Hll & Hlen & Hleaf & Hint).
+      { rewrite (wfn_depth t _ _ _ Hw). lia. } { intros; lia. }
+      rewrite Hsl. cbn [bind].
+      assert (Hcs : cstate root lf i' false (c_inc c1) par' (elements root) []).
+      { destruct (n_leaf root) eqn:Hrl.
+        - destruct (Hleaf eq_refl) as (-> & -> & ->).
+          pose proof (cs_leaf root root (length (n_elts root)) (c_inc c1) [] _ Hpl Hrl (le_n _)) as Hc.
+          rewrite firstn_all, skipn_all in Hc. cbn in Hc.
+          destruct root as [lf0 es0 ks0]. cbn in Hrl. subst lf0. exact Hc.
+        - destruct (Hint eq_refl) as (-> & _ & Hca & Hcb).
+          destruct h as [|h0]; [pose proof (wfn_pos t Ht _ _ _ Hw); lia|].
+          destruct h0 as [|h0]; [apply (wfn_leaf_iff t Ht) in Hw; intuition congruence|].
+          destruct (node_split _ _ root (length (n_elts root)) Hw Hrl (le_n _)) as (kid & Hkid & _ & He).
+          pose proof (cs_leaf root lf (length (n_elts lf)) (c_inc c1) par' _ Hpl Hll (le_n _)) as Hc.
+          rewrite firstn_all, skipn_all in Hc. cbn [app] in Hc.
+          rewrite (Hcb kid Hkid), Hca in Hc. cbn [ctx_before ctx_after] in Hc.
+          rewrite right_of_end in *. cbn [app] in *. rewrite ?app_nil_r in *. rewrite <- He in Hc. exact Hc. }
+      destruct (finish_prev root lf i' false (c_inc c1) par' (elements root) [] (c_pkread c1) Hcs Hs) as (c' & Hr & Hci & Hpk' & Han).
+      exists (elements root), [], c'. split; [split; [apply app_nil_r|reflexivity]|]. auto.
+  - (* parked on a key: seek again, then step *)
+    unfold cursor_prev, maybe_unpark. rewrite Hpk, Hk.
+    set (before := if c_pkread c then negb (c_inc c) else c_inc c).
+    destruct (seek_root_spec root h k before Hw Hs) as (n & idx & par & bef & aft & Hr & Hcs & Hp).
+    unfold cursor_seek. rewrite Hr. cbn [bind c_node c_idx c_rec c_inc c_par c_pkread].
+    apply cstate_leaf_inc with (inc' := c_inc c) in Hcs.
+    destruct (finish_prev root n idx false (c_inc c) par bef aft false Hcs Hs) as (c' & Hr' & Hci & Hpk' & Han).
+    exists bef, aft, c'. split; [|auto]. unfold anchor_of. rewrite Hk. fold before. exact Hp.
+  - (* unparked inside the tree *)
+    unfold cursor_prev, maybe_unpark. rewrite Hpk. cbn [bind]. rewrite Hn.
+    destruct (finish_prev root n (c_idx c) (c_rec c) (c_inc c) (c_par c) bef aft (c_pkread c) Hcs Hs) as (c' & Hr' & Hci & Hpk' & Han).
+    exists bef, aft, c'. auto.
+Qed.
+
+(* parking (what every mutation does to the registered cursors) keeps the anchor, and the parked
+   cursor is valid for whatever tree the mutation produces *)
+Lemma cursor_park_spec root c : cinv root c ->
+  anchor_of (cursor_park c) = anchor_of c /\ forall root', cinv root' (cursor_park c).
+Proof.
+  intros H. split; [reflexivity|]. intros root'.
+  destruct H as [(Hn & Hk & Hpar & Hrec & Hidx)|[(Hpk & k & Hk)|(Hpk & n & k & bef & aft & Hn & Hk & Hcs & Hpos)]].
+  - left. cbn. auto.
+  - right. left. cbn. eauto.
+  - right. left. cbn. eauto.
+Qed.
+
+Lemma cursor_boundary_spec root c :
+  cinv root (cursor_seek_first c) /\ anchor_of (cursor_seek_first c) = AL /\
+  cinv root (cursor_seek_last c) /\ anchor_of (cursor_seek_last c) = AR /\
+  cinv root new_cursor /\ anchor_of new_cursor = AL.
+Proof. repeat split; try reflexivity; left; cbn; auto 10. Qed.
+
 End CUR.
+
+(* the split of a sorted list at an anchor is unique: pos_ok defines THE reference position *)
+Lemma pos_ok_unique a l bef aft bef' aft' :
+  ksorted l -> pos_ok a l bef aft -> pos_ok a l bef' aft' -> bef = bef' /\ aft = aft'.
+Proof.
+  intros Hs (He & Ha) (He' & Ha').
+  assert (Hlen : length bef = length bef' -> bef = bef' /\ aft = aft').
+  { intros Hl. rewrite <- He' in He. destruct (app_eq_len _ _ _ _ He) as (-> & ->); auto. }
+  destruct a.
+  - subst. cbn in *. auto.
+  - subst. rewrite !app_nil_r in *. subst. auto.
+  - (* before k *)
+    destruct Ha as (H1 & H2). destruct Ha' as (H1' & H2'). apply Hlen.
+    destruct (Nat.lt_trichotomy (length bef) (length bef')) as [Hlt|[Heq|Hlt]]; [|assumption|]; exfalso.
+    + (* bef' is longer: its element at position |bef| is < k, but it lies in aft (>= k) *)
+      rewrite <- He' in He. clear He' Hs Hlen.
+      revert bef' He Hlt H1'. induction bef as [|a bef IH]; intros [|a' bef'] He Hlt H1'; cbn in *; try lia.
+      * subst aft. inversion H2; subst. inversion H1'; subst. lia.
+      * inversion He; subst. inversion H1; subst. inversion H1'; subst. eapply IH; eauto. lia.
+    + rewrite <- He' in He. clear He' Hs Hlen. symmetry in He.
+      revert bef He Hlt H1. induction bef' as [|a bef' IH]; intros [|a' bef] He Hlt H1; cbn in *; try lia.
+      * subst aft'. inversion H2'; subst. inversion H1; subst. lia.
+      * inversion He; subst. inversion H1; subst. inversion H1'; subst. eapply IH; eauto. lia.
+  - destruct Ha as (H1 & H2). destruct Ha' as (H1' & H2'). apply Hlen.
+    destruct (Nat.lt_trichotomy (length bef) (length bef')) as [Hlt|[Heq|Hlt]]; [|assumption|]; exfalso.
+    + rewrite <- He' in He. clear He' Hs Hlen.
+      revert bef' He Hlt H1'. induction bef as [|a bef IH]; intros [|a' bef'] He Hlt H1'; cbn in *; try lia.
+      * subst aft. inversion H2; subst. inversion H1'; subst. lia.
+      * inversion He; subst. inversion H1; subst. inversion H1'; subst. eapply IH; eauto. lia.
+    + rewrite <- He' in He. clear He' Hs Hlen. symmetry in He.
+      revert bef He Hlt H1. induction bef' as [|a bef' IH]; intros [|a' bef] He Hlt H1; cbn in *; try lia.
+      * subst aft'. inversion H2'; subst. inversion H1; subst. lia.
+      * inversion He; subst. inversion H1; subst. inversion H1'; subst. eapply IH; eauto. lia.
+Qed.
